@@ -5,10 +5,10 @@ package main
 // before calling executor.New. All observations are stamped with one global atomic sequence counter.
 
 import (
-	"os"
 	"context"
 	"errors"
 	"fmt"
+	"os"
 	"reflect"
 	"sort"
 	"strings"
@@ -41,18 +41,19 @@ func oracleHash(seed uint32, idx int, payload string) uint32 {
 }
 
 type nodeSpec struct {
-	idx     int
-	id      string
-	kind    string // sync | fanout | async
-	seed    uint32
-	wPass   int // weights in percent: pass, transform, filter, error; the rest is fanout (fanout nodes) or pass
-	wTrans  int
-	wFilter int
-	wError  int
-	maxFan  int
-	latency time.Duration
-	gate    chan struct{} // Process blocks on it while non-nil and open
-	gateFn  func()        // if set, Process blocks inside this call instead (e.g. inside a message send)
+	idx        int
+	id         string
+	kind       string // sync | fanout | async
+	seed       uint32
+	wPass      int // weights in percent: pass, transform, filter, error; the rest is fanout (fanout nodes) or pass
+	wTrans     int
+	wFilter    int
+	wError     int
+	maxFan     int
+	latency    time.Duration
+	gate       chan struct{} // Process blocks on it while non-nil and open
+	gateFn     func()        // if set, Process blocks inside this call instead (e.g. inside a message send)
+	shutBlocks bool          // Shutdown cannot return while the gate is closed (it needs what the wedged processing call holds)
 	// async behaviour: 0 answer inline, 1 answer from another goroutine after latency, 2 keep a backlog and flush it in Shutdown
 	asyncMode int
 	structErr bool // return FBError instead of a plain error
@@ -60,25 +61,25 @@ type nodeSpec struct {
 	subs      []string
 	failRecv  bool
 
-	mu         sync.Mutex
-	recv       []string
-	outcomes   map[string]int // pass/filter/error counts as decided by the oracle
-	setupCount int
-	shutCount  int
-	setupSeq   int64
-	firstEnter int64
-	lastEnter  int64
-	lastExit   int64
-	shutEnter  int64
-	shutExit   int64
-	cur        int32
-	hw         int32
-	receipts   []string // message receipts "type:key:payload"
-	returned   map[string]error
-	eventPtr   map[string]*firebolt.Event
-	handlerBad []string
-	backlog    []func()
-	pending    sync.WaitGroup
+	mu                sync.Mutex
+	recv              []string
+	outcomes          map[string]int // pass/filter/error counts as decided by the oracle
+	setupCount        int
+	shutCount         int
+	setupSeq          int64
+	firstEnter        int64
+	lastEnter         int64
+	lastExit          int64
+	shutEnter         int64
+	shutExit          int64
+	cur               int32
+	hw                int32
+	receipts          []string // message receipts "type:key:payload"
+	returned          map[string]error
+	eventPtr          map[string]*firebolt.Event
+	handlerBad        []string
+	backlog           []func()
+	pending           sync.WaitGroup
 	lateAfterShutdown int
 }
 
@@ -117,12 +118,18 @@ type outcome struct {
 
 // decide is the deterministic outcome oracle: what this node does with this payload.
 func (s *nodeSpec) decide(payload string) outcome {
+	if payload == "nil" {
+		return outcome{"pass", []string{payload}} // an event whose payload is nil is passed on as it is
+	}
 	h := oracleHash(s.seed, s.idx, payload)
 	x := int(h % 100)
 	switch {
 	case x < s.wPass:
 		return outcome{"pass", []string{payload}}
 	case x < s.wPass+s.wTrans:
+		if (h/100)%7 == 0 {
+			return outcome{"pass", []string{"nil"}} // the transformed event carries no payload at all
+		}
 		return outcome{"pass", []string{fmt.Sprintf("%st%d", payload, s.idx)}}
 	case x < s.wPass+s.wTrans+s.wFilter:
 		return outcome{"filter", nil}
@@ -201,6 +208,9 @@ func (v *vnode) Shutdown() error {
 	s.mu.Unlock()
 	for _, f := range backlog {
 		f()
+	}
+	if s.shutBlocks && s.gate != nil {
+		<-s.gate
 	}
 	s.pending.Wait() // a well-behaved async node answers every event before Shutdown returns
 	s.mu.Lock()
@@ -304,8 +314,18 @@ func (s *nodeSpec) makeErr(payload string) error {
 
 // payloadString: plain events carry a string; error handlers receive an EventError and record "E(<payload>)" after
 // checking that it carries the original event and the very error the failing node returned.
+// resultPayload: the result string "nil" stands for an event without a payload
+func resultPayload(r string) interface{} {
+	if r == "nil" {
+		return nil
+	}
+	return r
+}
+
 func payloadString(event *firebolt.Event, s *nodeSpec) string {
 	switch p := event.Payload.(type) {
+	case nil:
+		return "nil"
 	case string:
 		return p
 	case firebolt.EventError:
@@ -377,7 +397,7 @@ func (v *vsync) Process(event *firebolt.Event) (*firebolt.Event, error) {
 	if o.results[0] == payload {
 		return event, nil // pass the very same event on
 	}
-	return event.WithPayload(o.results[0]), nil
+	return event.WithPayload(resultPayload(o.results[0])), nil
 }
 
 type vfanout struct{ vnode }
@@ -399,7 +419,7 @@ func (v *vfanout) Process(event *firebolt.Event) ([]firebolt.Event, error) {
 	}
 	var out []firebolt.Event
 	for _, r := range o.results {
-		out = append(out, *event.WithPayload(r))
+		out = append(out, *event.WithPayload(resultPayload(r)))
 	}
 	return out, nil
 }
@@ -423,7 +443,7 @@ func (v *vasync) ProcessAsync(event *firebolt.AsyncEvent) {
 			if o.results[0] == payload {
 				event.ReturnEvent(event) // like the elasticsearch node: hand back the very same event
 			} else {
-				event.ReturnEvent(event.WithPayload(o.results[0]))
+				event.ReturnEvent(event.WithPayload(resultPayload(o.results[0])))
 			}
 		}
 		s.pending.Done()
@@ -453,31 +473,31 @@ func (v *vasync) ProcessAsync(event *firebolt.AsyncEvent) {
 // ---------------------------------------------------------------------------------------------- source
 
 type sourceScript struct {
-	mu          sync.Mutex
-	events      []string // payloads still to emit
-	failAfter   []int    // per incarnation: emit this many events then return an error (-1 = run to the end and return nil)
-	incarnation int
-	setupFails  bool
-	setupFailAt int                   // incarnation whose Setup returns an error (0 = none)
-	runFor      map[int]time.Duration // per incarnation: how long it runs before it fails
-	failTimes   []time.Time
-	startTimes  []time.Time
-	subs        []string
-	failRecv    bool
-	log         []string // factory / init / setup / start / shutdown calls
-	receipts    []string
-	stopAt      int // call executor.Shutdown (through stopFn) after this many emitted events in total (-1 never)
-	emitted     int
-	stopFn      func()
-	outCh       []string // identity of the output channel seen by each incarnation
-	params      []string
+	mu              sync.Mutex
+	events          []string // payloads still to emit
+	failAfter       []int    // per incarnation: emit this many events then return an error (-1 = run to the end and return nil)
+	incarnation     int
+	setupFails      bool
+	setupFailAt     int                   // incarnation whose Setup returns an error (0 = none)
+	runFor          map[int]time.Duration // per incarnation: how long it runs before it fails
+	failTimes       []time.Time
+	startTimes      []time.Time
+	subs            []string
+	failRecv        bool
+	log             []string // factory / init / setup / start / shutdown calls
+	receipts        []string
+	stopAt          int // call executor.Shutdown (through stopFn) after this many emitted events in total (-1 never)
+	emitted         int
+	stopFn          func()
+	outCh           []string // identity of the output channel seen by each incarnation
+	params          []string
 	lastStartReturn int64
-	startSeqs   []int64
-	blockedEmits int
-	setupDelay  map[int]time.Duration // per incarnation: how long Setup takes
-	cancelWrap  bool                  // failures wrap context.Canceled
-	errKind     string                // "retriable": failures carry (or wrap) an error with IsRetriable() == true, as kafka.Error does
-	receiptIncs []int                 // which incarnation each entry of receipts was handed to
+	startSeqs       []int64
+	blockedEmits    int
+	setupDelay      map[int]time.Duration // per incarnation: how long Setup takes
+	cancelWrap      bool                  // failures wrap context.Canceled
+	errKind         string                // "retriable": failures carry (or wrap) an error with IsRetriable() == true, as kafka.Error does
+	receiptIncs     []int                 // which incarnation each entry of receipts was handed to
 }
 
 var currentSource *sourceScript
@@ -486,7 +506,9 @@ var currentSource *sourceScript
 // differently from any other failed Start
 type retriableErr struct{ inc int }
 
-func (e *retriableErr) Error() string     { return fmt.Sprintf("scripted retriable source failure %d", e.inc) }
+func (e *retriableErr) Error() string {
+	return fmt.Sprintf("scripted retriable source failure %d", e.inc)
+}
 func (e *retriableErr) IsRetriable() bool { return true }
 
 // logf records a lifecycle call (caller holds s.mu); a child process started for a scenario that ends in os.Exit streams
